@@ -61,14 +61,16 @@ def corpus_files():
             meta = {}
             with open(os.path.join(CORPUS, fn)) as f:
                 for line in f:
-                    m = re.match(r"#\s*(sig|expect|what):\s*(.*)", line)
+                    m = re.match(r"#\s*(sig|expect|what|runner):\s*(.*)", line)
                     if m:
                         meta[m.group(1)] = m.group(2).strip()
             out.append((fn, meta))
     return out
 
 
-def run_corpus_one(janet, fn, env, preload=None):
+def run_corpus_one(janet, fn, env, preload=None, runner=None):
+    if runner:
+        janet = runner
     e = dict(os.environ, **env)
     if preload:
         e["LD_PRELOAD"] = preload
@@ -271,7 +273,15 @@ def run(ctx, only_replay=None):
                 continue
             if vn == "tsan" and meta.get("sig") == "deadlock-select-lock-order":
                 continue
-            rc, last, err = run_corpus_one(v["janet"], fn, SAN_ENV)
+            runner = None
+            if meta.get("runner") == "rcprobe":
+                if vn == "tsan":
+                    continue
+                try:
+                    runner = ctx.build.harness(vn, "c08rc", [os.path.join(VERIF, "harness/C08/rcprobe.c")])
+                except BuildError:
+                    continue
+            rc, last, err = run_corpus_one(v["janet"], fn, SAN_ENV, runner=runner)
             ncorp += 1
             sreps = san_reports(err) if meta.get("sig") not in ("abort-stale-reader-dead-thread",) else []
             if last != meta.get("expect") or sreps:
@@ -346,7 +356,9 @@ def replay(ctx, path):
             ctx.violation(r["signature"], dict(r, replayed=True), what="replay reproduces %d/10: %s" % (fails, r.get("what")))
     elif r.get("kind") == "corpus":
         fn = os.path.basename(r["file"])
-        rc, last, err = run_corpus_one(v["janet"], fn, SAN_ENV)
+        meta = dict(corpus_files()).get(fn, {})
+        runner = ctx.build.harness(r.get("variant", "plain"), "c08rc", [os.path.join(VERIF, "harness/C08/rcprobe.c")]) if meta.get("runner") == "rcprobe" else None
+        rc, last, err = run_corpus_one(v["janet"], fn, SAN_ENV, runner=runner)
         print("observed:", last, "rc", rc)
         if last != r.get("expected"):
             ctx.violation(r["signature"], dict(r, replayed=True), what="replay reproduces: " + r.get("what", ""))
